@@ -188,6 +188,39 @@ func runC11(c *Ctx) {
 		}
 	}
 
+	// ---- budgets are per level: with a fixed per-message hash, logging the
+	// same batch of messages once at every level (one window, N=1, M=0) must
+	// drop exactly the same positions at every level (the within-level hash
+	// collisions); anything else means budgets leak between levels ----
+	if g.Chance(4) {
+		sw := &c11world{c: c, enabled: func(zapcore.Level) bool { return true }}
+		batch := 40 + g.Draw(40)
+		sw.recs = make([]c11rec, batch*8)
+		scratch := zapcore.NewSamplerWithOptions(&c11core{w: sw}, time.Hour, 1, 0)
+		tag := g.Draw(1 << 20)
+		t := epoch.Add(48 * time.Hour)
+		var first []bool
+		for li, lvl := range []zapcore.Level{zapcore.DebugLevel, zapcore.InfoLevel, zapcore.WarnLevel, zapcore.ErrorLevel, zapcore.DPanicLevel, zapcore.PanicLevel, zapcore.FatalLevel} {
+			dropped := make([]bool, batch)
+			for i := 0; i < batch; i++ {
+				id := li*batch + i
+				scratch.Check(zapcore.Entry{Level: lvl, Message: fmt.Sprintf("probe message %d-%d", tag, i), Time: t, LoggerName: fmt.Sprint(id)}, nil)
+				dropped[i] = sw.recs[id].forwarded == 0
+			}
+			if li == 0 {
+				first = dropped
+				continue
+			}
+			for i := range dropped {
+				if dropped[i] != first[i] {
+					c.Fail("C11: sampling budgets are not separate per level", "the %d-th of %d distinct messages logged once at every level in one window was dropped=%v at level %s but dropped=%v at debug: entries of another level consumed its budget", i, batch, dropped[i], lvl, first[i])
+					return
+				}
+			}
+		}
+		r.Probe("per-level budget independence probed")
+	}
+
 	// ---- generate entries ----
 	levels := []zapcore.Level{zapcore.DebugLevel, zapcore.InfoLevel, zapcore.InfoLevel, zapcore.WarnLevel, zapcore.ErrorLevel, zapcore.FatalLevel, zapcore.DebugLevel - 1, zapcore.Level(7), zapcore.Level(-100), zapcore.Level(100)}
 	nTasks := 1
